@@ -303,4 +303,4 @@ def main(run: common.Run) -> None:
         for s in common.run_sharded(run.pid, run.tier, run.seed, campaign, 16, RULE):
             run.merge(s)
         # coverage-guided supplement (shares the target with C04: both oracles run inside it; only what this check's replay reproduces is reported here)
-        run.extra["coverage_guided"] = common.fuzz_campaign(run, replay, workers=16, runs=int(os.environ.get("VERIF_FUZZ_RUNS", "40000")))
+        run.extra["coverage_guided"] = common.fuzz_campaign(run, replay, workers=16, runs=int(os.environ.get("VERIF_FUZZ_RUNS", "15000")))
